@@ -93,6 +93,7 @@ ARG_TYPES = {
     "bool": ("bool", "scalar"), "usize": ("uintptr_t", "scalar"),
     "struct": ("struct Pt", "struct"), "slice": ("struct CSliceRef_u8", "slice"), "ptr": ("const uint32_t *", "ptr"),
     "cb": ("struct Callback_c_void__Pt", "cb"),
+    "pp": ("void **", "pp"), "cpp": ("const uint8_t **", "pp"),
 }
 RET_TYPES = {"void": "void", "u32": "uint32_t", "u64": "uint64_t", "bool": "bool", "struct": "struct Pt", "ptr": "const uint32_t *",
              "vptr": "void *"}
@@ -125,7 +126,8 @@ def models(tier, seed):
          "objects": [("Rr", "Box", "Arc"), ("Ww", "Box", "Arc"), ("Ww", "Mut", "Arc")], "groups": []},
         {"id": "obj_all_containers", "prefix": None,
          "traits": [{"name": "Rd", "methods": [M("peek", "ref", ("slice",), "u64"), M("ptrs", "ref", ("ptr", "usize"), "ptr")]},
-                    {"name": "Wr", "methods": [M("poke", "mut", ("u32", "bool")), M("emit", "ref", ("cb",), "bool")]}],
+                    {"name": "Wr", "methods": [M("poke", "mut", ("u32", "bool")), M("emit", "ref", ("cb",), "bool"),
+                                                M("outp", "mut", ("pp", "u32"), "u32"), M("next", "ref", ("u8", "cpp"), "bool")]}],
          "objects": [("Rd", "Box", ""), ("Rd", "Ref", ""), ("Rd", "Mut", "Arc"), ("Wr", "Box", "Arc"), ("Wr", "Mut", "")], "groups": []},
         {"id": "group_box_arc", "prefix": None,
          "traits": [{"name": "Base", "methods": [M("id", "ref", (), "u32"), M("bump", "mut", ("u32",), "u32")]},
@@ -138,7 +140,7 @@ def models(tier, seed):
          "objects": [("Aa", "Box", "Arc"), ("Bb", "Box", "Arc")], "groups": [("Two", ["Aa", "Bb"], "Box", "")]},
     ]
     extra = []
-    shapes = [("u32",), ("u8", "u64"), ("struct", "u32"), ("slice",), ("ptr", "bool", "i32"), ("cb", "usize"), ()]
+    shapes = [("u32",), ("u8", "u64"), ("struct", "u32"), ("slice",), ("ptr", "bool", "i32"), ("cb", "usize"), (), ("pp", "u8"), ("i32", "cpp")]
     rets = ["void", "u32", "u64", "bool", "struct", "ptr"]
     recvs = ["ref", "mut", "own"]
     k = seed % 7
@@ -419,6 +421,11 @@ def nd_decl(tykey, name):
         return "NDPTR(void *, %s);" % name
     if kind == "ptr":
         return "NDPTR(const uint32_t *, %s);" % name
+    if kind == "pp":
+        # pointer to pointer: a valid cell holding an arbitrary pointer, so that a wrapper which forwards `*p` instead of `p`
+        # hands over a different (observable) value instead of dereferencing garbage
+        inner = cty[:-1].strip()
+        return "static %s %s_cell; NDPTR(%s, %s_v); %s_cell = %s_v; %s%s = &%s_cell;" % (inner, name, inner, name, name, name, cty, name, name)
     return "ND(%s, %s);" % (cty, name)
 
 
@@ -630,6 +637,22 @@ def main(prop="C17", tier="quick"):
             inconclusive.append((model["id"], err))
             continue
         header = open(outp).read()
+        # the emitted header must be C on its own: a wrapper that calls an undeclared helper, or passes an argument of an
+        # incompatible type to its vtable entry, is not a callable wrapper for that entry (gcc is the replay oracle here; the
+        # three diagnostics promoted to errors are constraint violations of the C standard that gcc 12 only warns about)
+        grc, gout = sh(["gcc", "-std=c11", "-fsyntax-only", "-Werror=implicit-function-declaration",
+                        "-Werror=incompatible-pointer-types", "-Werror=int-conversion", "-x", "c", outp], cwd=mdir, timeout=120)
+        if grc != 0:
+            rp = os.path.join(VERIF, "work", "replay", "C17-%s-header-not-c.json" % model["id"])
+            os.makedirs(os.path.dirname(rp), exist_ok=True)
+            errs = [l for l in gout.splitlines() if "error" in l][:12]
+            json.dump({"engine": "c17", "property": prop, "model": model["id"], "header": outp,
+                       "replay_cmd": "gcc -std=c11 -fsyntax-only -Werror=implicit-function-declaration "
+                                     "-Werror=incompatible-pointer-types -Werror=int-conversion -x c " + outp,
+                       "errors": errs}, open(rp, "w"), indent=1)
+            violations.append(("emitted wrappers of model %s are not valid C (not callable): %s" % (model["id"], "; ".join(errs[:2])[:300]), rp))
+            samples.append({"model": model["id"], "verdict": "see violations", "header_errors": errs[:4]})
+            continue
         ws = parse_wrappers(header)
         hsrc, tests, missing = gen_harness(model, types, outp, ws)
         cpath = os.path.join(mdir, "harness.c")
